@@ -13,8 +13,10 @@ OBS = {"Open", "MAuth", "MProbe", "MClosed", "Dial", "TRecv", "TSawFin", "CRecv"
 KIND = {1: "pre", 2: "addr", 3: "addrplus", 4: "addrpart", 5: "addrrest", 6: "badaddr", 7: "data", 8: "bad", 9: "junk"}
 
 # real sockets: clock granularity 2 ms (one-sided, physically sound), a close may be OBSERVED up to 1.5 s late on a loaded
-# machine, bytes sent less than 120 ms before a deadline may or may not be read before it
-REAL_SLACK = dict(SlackEarly=2, SlackLate=1500, SlackSched=120)
+# machine, bytes sent less than 250 ms before a deadline may or may not be read before it (timed families: 600 ms handshake
+# timeout, model tick = 300 ms, so scripted sends are at least one tick away from the deadline)
+REAL_SLACK = dict(SlackEarly=2, SlackLate=1500, SlackSched=250)
+TIMED = dict(timeout_ms=600, unit_ms=300)
 EXACT_SLACK = dict(SlackEarly=0, SlackLate=0, SlackSched=0)
 
 
@@ -122,6 +124,11 @@ def normalize(case):
     r = {k: v for k, v in case.items() if k not in ("env", "stalls", "dialAddrs", "variant", "cipher", "keyid")}
     r["mlog"] = [{"m": m["m"], "s": ("ERR_ADDRESS" if m["s"].startswith("ERR_ADDRESS") else m["s"]), "n": m["n"]} for m in case["mlog"]]
     r["csent"] = [{"k": t["k"], "v": t["v"]} for t in case["csent"]]
+    if case.get("reset") or case["acceptAt"] < 0:
+        # never accepted (the listener was closed first): what the client sees is the kernel's doing, not the server's
+        r["closeAt"], r["clog"] = -1, []
+        for sn in r["snaps"]:
+            sn["closeAt"], sn["cl"] = -1, 0
     return r
 
 
@@ -181,6 +188,7 @@ DESCR = {
     "C06_CloseNotLate": "an unauthenticated connection was not closed within the bound after min(client close, accept + timeout)",
     "C06_NormalClose": "an unauthenticated, quiescent client saw something other than one normal close (FIN)",
     "C06_DrainHolds": "an authenticated stream that turned invalid was not drained: the proxy half-closed/closed while the client kept the connection open",
+    "C15_ReportedOnce": "an accepted connection whose handler returned was not reported opened once and closed once",
     "C15_Language": "metrics calls of a connection are not of the form Open . Authenticated? . Probe? . Closed",
     "C15_AuthOnlyIfAuthenticated": "AddAuthenticated was reported for a connection that cannot have authenticated",
     "C15_ProbeIffFailed": "AddProbe was not reported exactly when authentication failed",
@@ -317,3 +325,59 @@ def self_test(ctx, cases, slack):
     if missed:
         raise vlib.Inconclusive("self-test: TcpConnTrace accepted corrupted records: %s" % missed)
     return len(muts)
+
+
+def mech_pass(ctx, cases, behs, *, label, max_drift=8):
+    """Mechanism pass (drift report): is every single-connection record a behaviour of TcpConn.tla's mechanism layer under the
+    script that was performed?  Not a verdict: unmatched records are counted as drift with a sample."""
+    rows = []
+    for c in cases:
+        if len(behs[c["beh"]]["sc"]) != 1 or c["hung"]:
+            continue
+        n = normalize(c)
+        n = {k: n[k] for k in ("hs", "tk", "script", "tlog", "clog", "mlog", "dials")}
+        if c.get("reset") or c["acceptAt"] < 0:
+            n["clog"] = []
+        rows.append((c, n))
+    # anti-vacuity: a corrupted copy of a record (its AddClosed removed) goes last and must NOT be matched
+    canary = None
+    for c, n in reversed(rows):
+        if n["mlog"] and n["mlog"][-1]["m"] == "Closed":
+            canary = (dict(c, canary=True), dict(n, mlog=n["mlog"][:-1]))
+            break
+    if canary:
+        rows = rows + [canary]
+    todo = rows
+    matched, drift = 0, []
+    runs = 0
+    while todo and runs <= max_drift:
+        runs += 1
+        tf = os.path.join(ctx.sub("mech"), "trace-%d.ndjson" % len(os.listdir(ctx.sub("mech"))))
+        vlib.write_ndjson(tf, [n for _, n in todo])
+        ok, r = vlib.validate_traces(ctx, "TcpConnTraceM", "TcpConnTraceM.cfg", tf, timeout=900)
+        if not ok and r.violated:
+            raise vlib.Inconclusive("TcpConnTraceM failed (%s): %s" % (label, "\n".join(r.out.splitlines()[-10:])))
+        got = {int(m.group(1)) for m in re.finditer(r'<<"MATCHED", (\d+)>>', r.out)}
+        k = 0
+        while k + 1 in got:
+            k += 1
+        matched += k
+        if k == len(todo):
+            todo = []
+            break
+        drift.append(todo[k][0])
+        todo = todo[k + 1:]
+    if canary:
+        rows = rows[:-1]
+        if drift and drift[-1].get("canary"):
+            drift = drift[:-1]
+        elif not todo:
+            raise vlib.Inconclusive("TcpConnTraceM matched a corrupted record (%s)" % label)
+    ctx.cov.setdefault("mechanism_pass", {})[label] = {"records": len(rows), "matched": matched, "unmatched": len(drift),
+                                                      "not_examined": max(0, len(todo) - (1 if canary else 0))}
+    if drift:
+        ctx.cov["drift"] += len(drift)
+        c = drift[0]
+        ctx.notes.append("drift (%s): %d record(s) are not behaviours of the mechanism layer under their script, e.g. script %s; %s" % (
+            label, len(drift), " ".join(c["env"]), json.dumps(brief(c))))
+    return matched, drift
